@@ -36,10 +36,11 @@ CFG = dict(
     deps=["C02", "C04", "C07"],
     classify=classify,
     rule="datastore histories of 30-200 events over a universe of 3 workload endpoints (2 local, 1 remote), 2 host endpoints, 3 profiles "
-         "(rules + labels-to-apply), 3 tiers, 4 policies (3 global + 1 namespaced; tier default/tier-1/tier-2 possibly absent, order "
+         "(rules + labels-to-apply; endpoints may also list the namespace profile kns.ns1 and a missing profile), 3 tiers, 4 policies (3 global + 1 namespaced; tier default/tier-1/tier-2 possibly absent, order "
          "unset/10/20/30, 11 selectors, rules with selectors, nets, named ports, negations; untracked / pre-DNAT / apply-on-forward / "
          "always-programmed variants), 2 network sets, 2 IP pools (VXLAN/IPIP x Always/CrossSubnet/none), 3 IPAM blocks (affinity any "
-         "node or none, borrowed addresses), 3 nodes (BGP address variants incl. shared) with VXLAN tunnel address/MAC host config; "
+         "node or none, borrowed addresses), 3 nodes (BGP IPv4 address variants incl. shared, optional IPv6, labels) with VXLAN tunnel "
+         "address/MAC host config, a Kubernetes namespace profile and a service-account profile (ProfileDecoder), one Wireguard key; "
          "ops: set random variant / delete (also of absent keys) / revert to an older version / duplicate the last update / flush / "
          "in-sync at a random point (or only at the end, or repeated); a populate prefix; every 6th case is scripted around a policy "
          "whose match starts and stops between two flushes and which is then updated while inactive.  Driven through the REAL "
